@@ -176,7 +176,7 @@ impl Prop for C09 {
     }
     fn assumptions(&self) -> Vec<String> {
         vec![
-            "the 'through its name' bound is asserted for HTML-namespace input only; inside svg/math the tag scanner may legitimately request a full lexeme (DESIGN.md §6)".into(),
+            "inside svg/math the tag scanner may legitimately request a full lexeme (DESIGN.md §6): there the 'through its name' bound is asserted only on generated documents with ground-truth namespaces and only for start tags whose lexeme the tree-builder simulator does not need (not svg, math, font, integration points, unhashable names in MathML)".into(),
             "held bytes are identified as input[bytes_out..bytes_in], which relies on pass-through identity (C01) for observer configurations".into(),
         ]
     }
